@@ -98,6 +98,9 @@ func readBlobString(i *bufio.Reader) (m RedisMessage, err error) {
 				m.setString(sb.String())
 				return m, nil
 			}
+			if length < 0 {
+				return RedisMessage{}, errors.New(unexpectedNegLen)
+			}
 			sb.Grow(int(length))
 			if _, err = io.CopyN(&sb, i, length); err != nil {
 				return RedisMessage{}, err
@@ -211,6 +214,9 @@ func readB(i *bufio.Reader) (*byte, int64, error) {
 	if length == -1 {
 		return nil, 0, errOldNull
 	}
+	if length < 0 {
+		return nil, 0, errors.New(unexpectedNegLen)
+	}
 	bs := make([]byte, length)
 	if _, err = io.ReadFull(i, bs); err != nil {
 		return nil, 0, err
@@ -238,6 +244,9 @@ func readE(i *bufio.Reader) (*RedisMessage, int64, error) {
 func readA(i *bufio.Reader, length int64) (*RedisMessage, int64, error) {
 	var err error
 
+	if length < 0 {
+		return nil, 0, errors.New(unexpectedNegLen)
+	}
 	msgs := make([]RedisMessage, length)
 	for n := range length {
 		if msgs[n], err = readNextMessage(i); err != nil {
@@ -388,5 +397,6 @@ func flushCmd(o *bufio.Writer, cmd []string) (err error) {
 const (
 	unexpectedNoCRLF   = "received unexpected simple string message ending without CRLF"
 	unexpectedNumByte  = "received unexpected number byte: "
+	unexpectedNegLen   = "received unexpected negative length"
 	unknownMessageType = "received unknown message type: "
 )
